@@ -146,6 +146,20 @@ def catalogue():
   for nm in ("poles_exp", "freq_poles_exp", "z_exp", "freq_z_exp"):
     C["resonator.%s(stream)" % nm] = S(
         lambda a, b, c, f=resonator[nm]: f(Stream(b) * .001 + .5, Stream(c) * .001 + .1)(a), lambda k: k, nsrc=3)
+  from audiolazy import x as px, gammatone, tostream, dB20, sin as lsin
+  C["poly(stream)"] = S(lambda s: (px ** 2 + 2 * px + 1)(Stream(s)), lambda k: k)
+  C["laurent-poly(stream)"] = S(lambda s: (px ** -1 + 3)(Stream(s) + 1), lambda k: k)
+  C["freq_response(stream)"] = S(lambda s: (1 - .5 * z ** -1).freq_response(Stream(s) * .01), lambda k: k)
+  C["cascade.freq_response(stream)"] = S(lambda s: CascadeFilter(1 - z ** -1, 1 / (1 - .5 * z ** -1))
+                                         .freq_response(Stream(s) * .01 + .1), lambda k: k)
+  C["dB20(stream)"] = S(lambda s: dB20(Stream(s) + 1), lambda k: k)
+  C["sin(generator)"] = S(lambda s: Stream(lsin(v for v in s)), lambda k: k)
+  C["gammatone.klapuri(stream)"] = S(lambda a, b, c: gammatone.klapuri(Stream(b) * .001 + .5, Stream(c) * .001 + .1)(a),
+                                     lambda k: k, nsrc=3)
+  def _gen(src):
+    for v in src:
+      yield v * 2
+  C["tostream(generator function)"] = S(lambda s: tostream(_gen)(s), lambda k: k)
   # ---- misc / io
   C["zero_pad(2,3)"] = S(lambda s: zero_pad(s, 2, 3), lambda k: max(k - 2, 0), chain=False)
   C["chunks.struct(2)"] = S(lambda s: chunks.struct(s, size=2, dfmt="d", padval=0.), lambda j: 2 * j, kind="bytes")
